@@ -1279,6 +1279,20 @@ def m_read(it, argv, text):
         return err(io_error('Other'))
     want = dst.end - dst.start
     got = min(want, len(n[2]) - h['pos'])
+    if rd.kind == 'BufReader':
+        # std BufReader::read: an empty buffer and a request of at least one capacity go straight to the file; otherwise the
+        # buffer is (re)filled with up to one capacity and the call returns what the BUFFER holds -- possibly less than asked
+        pos = h['pos']
+        bend = h.get('bufend')
+        if bend is None or bend <= pos:
+            if want >= Env.BUFCAP:
+                bend = pos                      # bypass, buffer stays empty
+            else:
+                bend = min(len(n[2]), pos + Env.BUFCAP)
+                got = min(want, bend - pos)
+        else:
+            got = min(want, bend - pos)
+        h['bufend'] = max(bend, pos + got) if bend > pos else pos + got if want >= Env.BUFCAP else bend
     base = it.load(dst.addr)
     it.store(dst.addr, VecV(base.e[:dst.start] + tuple(n[2][h['pos']:h['pos'] + got]) + base.e[dst.start + got:]))
     h['pos'] += got
